@@ -447,12 +447,15 @@ func (r *runner) drain() string {
 	return r.status()
 }
 
-func runScript(c corr.Case) (res corr.Result) {
+func runScript(c corr.Case) corr.Result { return runScriptStream(c, func(string) {}) }
+
+func runScriptStream(c corr.Case, emit func(string)) (res corr.Result) {
 	var r *runner
 	defer func() {
 		if p := recover(); p != nil {
 			for len(res.Outs) < len(c.Lines) {
 				res.Outs = append(res.Outs, fmt.Sprintf("panic:%v", p))
+				emit(fmt.Sprintf("panic:%v", p))
 			}
 		}
 	}()
@@ -463,6 +466,7 @@ func runScript(c corr.Case) (res corr.Result) {
 			// a property monitor fired: the locker's state can no longer be trusted (a further unlock may hit
 			// "fatal error: sync: Unlock of unlocked RWMutex", which cannot be recovered) — stop driving it
 			res.Outs = append(res.Outs, "stopped-after-violation")
+			emit("stopped-after-violation")
 			continue
 		}
 		switch {
@@ -503,6 +507,7 @@ func runScript(c corr.Case) (res corr.Result) {
 			r.monitors(line)
 		}
 		res.Outs = append(res.Outs, out)
+		emit(out)
 	}
 	if r != nil {
 		if len(r.hits) == 0 {
